@@ -226,8 +226,9 @@ def finish(pid, tier, seed, res, contract, t0, repo):
     ev = dict(property_id=pid, tier=tier, seed=seed, level=level, coverage=cov,
               assumptions=list(getattr(contract, 'ASSUMPTIONS', [])) + list(getattr(contract, 'UNVERIFIED', [])),
               wall_s=round(time.time() - t0, 2), violations=len(violations))
-    os.makedirs(os.path.join(VERIF, 'evidence'), exist_ok=True)
-    evp = os.path.join(VERIF, 'evidence', f'{pid}.json')
+    evdir = os.path.join(VERIF, 'evidence') if os.path.realpath(repo) == '/repo' else os.path.join(VERIF, '.build', 'evidence-scratch')
+    os.makedirs(evdir, exist_ok=True)
+    evp = os.path.join(evdir, f'{pid}.json')
     json.dump(ev, open(evp, 'w'), indent=1)
     for ob, kf in known_hit:
         print(f"KNOWN-FINDING: property={pid} obligation={ob['id']} {kf['what']}")
